@@ -9,70 +9,286 @@ from core.ctx import REPO
 from props import _crash_fsfault as F
 
 ID = "C25"
+VOLATILE = ("minisanity.txt", "counting_report.txt")      # contain datetime.now(): never compared byte-wise
 
 
-# ------------------------------------------------------------------------------------------------ worker (subprocess)
-def worker(args):
-    """runs in a fresh process under the fault injector: the REAL nifty.cl.optimize_kl on a tiny model"""
+# ------------------------------------------------------------------------------------------------ inside the workers
+def _setup(cfg):
+    """build the tiny model; return drive(odir, resume, copy_to=None) -> result dict (runs the REAL nifty.cl.optimize_kl)"""
     import numpy as np
     import nifty.cl as ift
-    import sys
-    okl = sys.modules["nifty.cl.minimization.optimize_kl"]
-    from nifty.cl.minimization.kl_energies import SampledKLEnergy
 
     sp = ift.RGSpace(4)
     xi = ift.ducktape(sp, None, "xi")
     sig = (0.5 * xi).exp() + xi
-    rng = np.random.default_rng(int(args.get("seed", 0)))
+    rng = np.random.default_rng(int(cfg.get("seed", 0)))
     data = ift.makeField(sp, rng.integers(-2, 3, size=4).astype(np.float64))
     lh = ift.GaussianEnergy(data=data, inverse_covariance=ift.ScalingOperator(sp, 4.0, sampling_dtype=np.float64)) @ sig
     ic = ift.AbsDeltaEnergyController(deltaE=0.1, iteration_limit=5)
     mini = ift.NewtonCG(ift.AbsDeltaEnergyController(deltaE=0.1, iteration_limit=3))
-    nl = None
-    if args.get("geovi"):
-        nl = ift.NewtonCG(ift.AbsDeltaEnergyController(deltaE=0.1, iteration_limit=2))
-    # count the iterations really performed by this process (SampledKLEnergy / EnergyAdapter constructions in the loop)
+    nl = ift.NewtonCG(ift.AbsDeltaEnergyController(deltaE=0.1, iteration_limit=2)) if cfg.get("geovi") else None
     n_it = [0]
     orig_min = ift.NewtonCG.__call__
 
-    def counting_call(self, energy, *a, **kw):
+    def counting_call(self, energy, *a, **kw):   # iterations really performed by one call of the driver
         if self is mini:
             n_it[0] += 1
         return orig_min(self, energy, *a, **kw)
     ift.NewtonCG.__call__ = counting_call
-    ift.random.push_sseq_from_seed(int(args.get("seed", 0)) + 11)
-    depth0 = len(ift.random._sseq)
-    export = {}
-    if args.get("export"):
-        export = {"sig": sig}
-    copy_to = args.get("copy_to")
-    cb = None
-    if copy_to:
-        import shutil as _sh
+    n_samples = int(cfg.get("n_samples", 1))
 
-        def cb(sl, iglobal):  # reference run only: keep every iteration's directory content (outside odir)
-            dst = os.path.join(copy_to, str(iglobal))
-            if os.path.isdir(dst):
-                _sh.rmtree(dst)
-            _sh.copytree(args["odir"], dst)
-    kw = dict(inspect_callback=cb) if cb else {}
-    n_samples = int(args.get("n_samples", 1))
-    sl, mean = ift.optimize_kl(
-        lh, int(args["n"]), n_samples, mini, ic if n_samples else None, nonlinear_sampling_minimizer=nl,
-        export_operator_outputs=export, output_directory=args["odir"], save_strategy=args.get("strategy", "latest"),
-        resume=bool(args["resume"]), return_final_position=True,
-        plot_energy_history=bool(args.get("plots")), plot_minisanity_history=bool(args.get("plots")), **kw)
-    h = hashlib.sha1()
-    for k in sorted(mean.keys()):
-        h.update(k.encode())
-        h.update(np.ascontiguousarray(mean[k].val.asnumpy()).tobytes())
-    hs = hashlib.sha1()
-    ns = 0
-    for s in sl.iterator():
-        ns += 1
-        for k in sorted(s.keys()):
-            hs.update(np.ascontiguousarray(s[k].val.asnumpy()).tobytes())
-    res = dict(mean=h.hexdigest(), samples=hs.hexdigest(), n_samples=ns, iterations=n_it[0],
-               sseq_depth=len(ift.random._sseq) - depth0)
+    def drive(odir, resume, copy_to=None):
+        # a fresh process: module-level RNG state as after import, then the user's seed
+        ift.random._sseq[:] = [np.random.SeedSequence(42)]
+        ift.random._rng[:] = [np.random.default_rng(ift.random._sseq[-1])]
+        ift.random.push_sseq_from_seed(int(cfg.get("seed", 0)) + 11)
+        depth0 = len(ift.random._sseq)
+        n_it[0] = 0
+        kw = {}
+        if copy_to:
+            def cb(sl, iglobal):  # reference run only: keep every iteration's directory content (outside odir)
+                shutil.copytree(odir, os.path.join(copy_to, str(iglobal)))
+            kw["inspect_callback"] = cb
+        sl, mean = ift.optimize_kl(
+            lh, int(cfg["n"]), n_samples, mini, ic if n_samples else None, nonlinear_sampling_minimizer=nl,
+            export_operator_outputs={"sig": sig} if cfg.get("export") else {}, output_directory=odir,
+            save_strategy=cfg.get("strategy", "latest"), resume=bool(resume), return_final_position=True,
+            plot_energy_history=bool(cfg.get("plots")), plot_minisanity_history=bool(cfg.get("plots")), **kw)
+        h = hashlib.sha1()
+        for k in sorted(mean.keys()):
+            h.update(k.encode())
+            h.update(np.ascontiguousarray(mean[k].val.asnumpy()).tobytes())
+        hs = hashlib.sha1()
+        ns = 0
+        for s in sl.iterator():
+            ns += 1
+            for k in sorted(s.keys()):
+                hs.update(np.ascontiguousarray(s[k].val.asnumpy()).tobytes())
+        return dict(mean=h.hexdigest(), samples=hs.hexdigest(), n_samples=ns, iterations=n_it[0],
+                    sseq_depth=len(ift.random._sseq) - depth0)
+    return drive
+
+
+def worker(args):
+    """one real process = one call of the driver (killed by os._exit at the point given to the injector)"""
+    drive = _setup(args["cfg"])
+    res = drive(args["odir"], args["resume"])
     with open(args["result"], "w") as fh:
         json.dump(res, fh)
+
+
+def _load_ref(cp, n):
+    """reference copies: {iteration: {relpath: bytes}} of the directory after each iteration"""
+    ref = {}
+    for i in range(n):
+        d = os.path.join(cp, str(i))
+        ref[i] = {}
+        for root, _, files in os.walk(d):
+            for fn in files:
+                p = os.path.join(root, fn)
+                ref[i][os.path.relpath(p, d)] = open(p, "rb").read()
+    return ref
+
+
+def _classify(rel, b, ref):
+    """status class of one file: value:<text> for the marker, complete:<i> / partial / empty / garbage for pickles"""
+    if rel.startswith("last_finished_iteration"):
+        t = b.decode("latin1")
+        return "empty" if t == "" else f"value:{t}"
+    if not b:
+        return "empty"
+    base = os.path.basename(rel)
+    cand = [rel]
+    if base.startswith(".") and base.endswith(".tmp"):      # sample temp file  .NAME.tmp  -> NAME
+        cand.append(os.path.join(os.path.dirname(rel), base[1:-4]))
+    elif rel.endswith(".tmp"):
+        cand.append(rel[:-4])
+    its = [i for i in sorted(ref) for c in cand if ref[i].get(c) == b]
+    if its:
+        return f"complete:{its[0]}" if "nifty_random_state" not in rel else "complete"
+    if any(ref[i].get(c, b"").startswith(b) for i in ref for c in cand):
+        return "partial"
+    return "garbage"
+
+
+def _files(odir, ref):
+    out = {}
+    if not os.path.isdir(odir):
+        return out
+    for root, _, files in os.walk(odir):
+        for fn in files:
+            p = os.path.join(root, fn)
+            rel = os.path.relpath(p, odir)
+            if rel in VOLATILE:
+                out[rel] = "present"
+            elif rel.endswith((".png", ".hdf5")):
+                out[rel] = "opaque"
+            else:
+                out[rel] = _classify(rel, open(p, "rb").read(), ref)
+    return dict(sorted(out.items()))
+
+
+def _snap(odir):
+    """sha1 per file, without the files that contain wall-clock time"""
+    if not os.path.isdir(odir):
+        return {}
+    return {k: v for k, v in F.snapshot(odir).items() if k not in VOLATILE and not k.endswith((".png", ".hdf5"))}
+
+
+def session(args):
+    """one process, many scenarios, SIMULATED kills (F.simulate): reference run first, then for every scenario the
+    successive killed runs and the final unkilled resume.  Output (json) -> args['out']."""
+    cfg = args["cfg"]
+    drive = _setup(cfg)
+    w = args["work"]
+    cp = os.path.join(w, "copies")
+    shutil.rmtree(cp, ignore_errors=True)
+    os.makedirs(cp)
+    rdir = os.path.join(w, "ref", "out")
+    r = F.simulate(lambda: drive(rdir, cfg.get("r0", False), copy_to=cp), rdir)
+    out = dict(ref=dict(status=r["status"], exc=r["exc"], res=r["value"], ops=r["ops"], coarse=F.coarse(r["ops"])), scen={})
+    if r["status"] != "done":
+        json.dump(out, open(args["out"], "w"))
+        return
+    ref = _load_ref(cp, cfg["n"])
+    out["ref"]["files"] = _files(rdir, ref)
+    for sc in args["scenarios"]:
+        odir = os.path.join(w, f"s{sc['sid']}", "out")
+        shutil.rmtree(os.path.dirname(odir), ignore_errors=True)
+        os.makedirs(os.path.dirname(odir))
+        kills = sc["kills"]
+        stages, resume = [], bool(cfg.get("r0", False))
+        for kill in kills:
+            k = F.simulate(lambda: drive(odir, resume), odir, kill)
+            stages.append(dict(status=k["status"], exc=k["exc"], files=_files(odir, ref), snap=_snap(odir),
+                               coarse=F.coarse(k["ops"]), killed=k["killed"], kill=kill, res=k["value"]))
+            resume = True
+            if k["status"] == "error":
+                break
+        k = F.simulate(lambda: drive(odir, True), odir, None)
+        final = dict(status=k["status"], exc=k["exc"], res=k["value"], files=_files(odir, ref), snap=_snap(odir),
+                     coarse=F.coarse(k["ops"]),
+                     reads=sorted({q["path"] for q in k["queries"] if q["q"] == "read"}))
+        out["scen"][str(sc["sid"])] = dict(kills=kills, stages=stages, final=final)
+        shutil.rmtree(os.path.dirname(odir), ignore_errors=True)
+    json.dump(out, open(args["out"], "w"))
+
+
+# ------------------------------------------------------------------------------------------------ harness side
+_WORK = None
+_POOL = None
+_SESS = {}
+
+
+class Infra(Exception):
+    pass
+
+
+def _cleanup():
+    if _POOL is not None:
+        _POOL.close()
+    if _WORK and not os.environ.get("VERIF_KEEP"):
+        shutil.rmtree(_WORK, ignore_errors=True)
+
+
+def _work():
+    global _WORK
+    if _WORK is None:
+        import atexit
+        _WORK = tempfile.mkdtemp(prefix="c25_")
+        atexit.register(_cleanup)
+    return _WORK
+
+
+def _pool():
+    global _POOL
+    if _POOL is None:
+        _POOL = F.Pool(int(os.environ.get("VERIF_WORKERS", "6")), preload=("numpy", "scipy.sparse.linalg", "nifty.cl"),
+                       env={"NIFTY_REPO": REPO})
+    return _POOL
+
+
+def _run_session(tag, cfg, scenarios):
+    w = os.path.join(_work(), "sess_" + tag)
+    shutil.rmtree(w, ignore_errors=True)
+    os.makedirs(w)
+    outp = os.path.join(w, "out.json")
+    job = dict(root=os.path.join(w, "unused_root"), log=os.path.join(w, "log"), target="props.c25:session", repo=REPO,
+               kill_at=None, args=dict(cfg=cfg, scenarios=scenarios, out=outp, work=w))
+    rc, err = _pool().run(job, timeout=1500)
+    if rc != 0 or not os.path.exists(outp):
+        e = open(job["log"] + ".err").read() if os.path.exists(job["log"] + ".err") else ""
+        raise Infra(f"session {tag} failed rc={rc} {e} {err[-400:]}")
+    return json.load(open(outp))
+
+
+def _run_real(tag, odir, cfg, resume, kill=None):
+    w = _work()
+    log = os.path.join(w, tag + ".log")
+    resf = os.path.join(w, tag + ".res")
+    for f in (log, resf, log + ".err"):
+        if os.path.exists(f):
+            os.unlink(f)
+    job = dict(root=odir, log=log, target="props.c25:worker", repo=REPO,
+               kill_at=None if kill is None else kill["at"], when=(kill or {}).get("when", "before"),
+               frac=(kill or {}).get("frac", [1, 2]), args=dict(cfg=cfg, odir=odir, resume=resume, result=resf))
+    rc, err = _pool().run(job, timeout=900)
+    ops, qs, killed = F.read_log(log)
+    res = json.load(open(resf)) if os.path.exists(resf) else None
+    e = json.load(open(log + ".err")) if os.path.exists(log + ".err") else None
+    return dict(rc=rc, err=err, res=res, ops=ops, killed=killed, exc=e)
+
+
+def _scenario_real(sid, cfg, kills):
+    odir = os.path.join(_work(), f"real{sid}", "out")
+    shutil.rmtree(os.path.dirname(odir), ignore_errors=True)
+    os.makedirs(os.path.dirname(odir))
+    stages, resume = [], bool(cfg.get("r0", False))
+    st_of = {0: "done", F.EXIT_KILLED: "killed", F.EXIT_ERROR: "error"}
+    for j, kill in enumerate(kills):
+        r = _run_real(f"real{sid}_k{j}", odir, cfg, resume, kill)
+        stages.append(dict(status=st_of.get(r["rc"], f"rc={r['rc']}"), exc=r["exc"], snap=_snap(odir), killed=r["killed"],
+                           coarse=F.coarse(r["ops"])))
+        resume = True
+        if r["rc"] not in (0, F.EXIT_KILLED):
+            break
+    r = _run_real(f"real{sid}_fin", odir, cfg, True)
+    final = dict(status=st_of.get(r["rc"], f"rc={r['rc']}"), exc=r["exc"], res=r["res"], snap=_snap(odir),
+                 coarse=F.coarse(r["ops"]))
+    shutil.rmtree(os.path.dirname(odir), ignore_errors=True)
+    return dict(kills=kills, stages=stages, final=final)
+
+
+def _window(cfg, sc):
+    """where (in the driver's protocol) the first kill hit: used in the signature of a failure"""
+    k = (sc["stages"][0].get("killed") or {}).get("killed", "") if sc["stages"] else ""
+    return k
+
+
+def _judge(cfg, sc, refres):
+    """the property on the real code: every restart gets past loading, the unkilled resume finishes and returns the same
+    (samples, mean) as the uninterrupted run.  -> None | (what, signature)"""
+    fin = sc["final"]
+    where = "; ".join(f"{(st.get('killed') or {}).get('killed', 'not killed')}" for st in sc["stages"])
+    strat = cfg.get("strategy", "latest")
+    for st in list(sc["stages"]) + [fin]:
+        if str(st["status"]).startswith("rc="):
+            raise Infra(f"worker failed: {st['status']}")
+        if st["status"] == "error":
+            e = (st["exc"] or {}).get("error", "?")
+            return (f"[{strat}] optimize_kl(resume=True) raised {e} ({(st['exc'] or {}).get('msg', '')[:80]}) after an "
+                    f"earlier kill [{where}]: resuming is impossible",
+                    dict(driver="cl.optimize_kl", strategy=strat, phase="resume", error=e,
+                         site=(st["exc"] or {}).get("site", "")))
+    for st in sc["stages"]:
+        if st["status"] == "done" and st.get("res") is not None and (
+                st["res"]["mean"] != refres["mean"] or st["res"]["samples"] != refres["samples"]):
+            return (f"[{strat}] a resumed run after kill [{where}] finished with different (samples, mean)",
+                    dict(driver="cl.optimize_kl", strategy=strat, phase="result", error="different-result"))
+    r = fin["res"]
+    if r is None or r["mean"] != refres["mean"] or r["samples"] != refres["samples"] or r["n_samples"] != refres["n_samples"]:
+        return (f"[{strat}] resume=True after kill [{where}] finished with different (samples, mean) than the "
+                f"uninterrupted run (mean equal: {bool(r) and r['mean'] == refres['mean']}, samples equal: "
+                f"{bool(r) and r['samples'] == refres['samples']}): silently wrong",
+                dict(driver="cl.optimize_kl", strategy=strat, phase="result", error="different-result"))
+    return None
